@@ -138,7 +138,9 @@ int64_t cmb_resourceguard_wait(struct cmb_resourceguard *rgp,
                                cmb_resourceguard_demand_func *demand,
                                const void *ctx)
 {
-    return cmi_resourceguard_wait_since(rgp, demand, ctx, cmb_time());
+    uint64_t arrival = 0u;
+
+    return cmi_resourceguard_wait_since(rgp, demand, ctx, cmb_time(), &arrival);
 }
 
 /*
@@ -146,16 +148,20 @@ int64_t cmb_resourceguard_wait(struct cmb_resourceguard *rgp,
  * since the given time: one that was served in part, or that found its grant
  * taken by someone else in the same instant, and comes back for more inside
  * the same call. It keeps its place among the waiters of its priority instead
- * of going to the back of the line as if it had just arrived.
+ * of going to the back of the line as if it had just arrived: the time it has
+ * been waiting since, and its arrival number among those who came in the same
+ * instant (*arrival, zero before the first wait of the call).
  */
 int64_t cmi_resourceguard_wait_since(struct cmb_resourceguard *rgp,
                                      cmb_resourceguard_demand_func *demand,
                                      const void *ctx,
-                                     const double since)
+                                     const double since,
+                                     uint64_t *arrival_p)
 {
     cmb_assert_release(rgp != NULL);
     cmb_assert_release(demand != NULL);
     cmb_assert_release(since <= cmb_time());
+    cmb_assert_release(arrival_p != NULL);
 
     /* cmb_process_current returns NULL if called from the main process */
     struct cmb_process *pp = cmb_process_current();
@@ -163,7 +169,10 @@ int64_t cmi_resourceguard_wait_since(struct cmb_resourceguard *rgp,
 
     /* The arrival number at this guard breaks ties among equal priority and time */
     struct cmi_hashheap *hp = (struct cmi_hashheap *)rgp;
-    const uintptr_t arrival = (uintptr_t)(hp->item_counter + 1u);
+    if (*arrival_p == 0u) {
+        *arrival_p = hp->item_counter + 1u;
+    }
+    const uintptr_t arrival = (uintptr_t)(*arrival_p);
     const double entry_time = since;
     const int64_t priority = cmb_process_priority(pp);
     const uint64_t key = cmi_hashheap_enqueue(hp,
